@@ -538,7 +538,7 @@ func TestCheck(t *testing.T) {
 	rec = mon.Open("C16")
 	defer rec.Close()
 	rec.Note("rule", "LimitReadCloser: every limit N in 0..16 x source length 0..N+3 x every composition of the source into read chunks (all compositions for lengths up to the tier's bound, seeded compositions above; see exhaustive_lengths) x EOF-with-last-data/EOF-alone x zero-length reads (none/before first/between/before EOF) x injected source error at every chunk position (with and without data) x consumer = Read loop with every buffer size 1..N+2, io.ReadAll, io.Copy. MultiReaderCloser: 1-4 scripted sources (closable/plain, one possibly failing) x the same consumers (io.Copy takes WriteTo). TeeReadCloser: every composition x closable/plain source and writer x writer failing at every offset. A case is one (component, parameters, script, consumer) tuple; tuples are enumerated without repetition, so distinct = evaluated; non-trivial = the source has at least one byte or a terminal error other than a bare EOF. Larger seeded streams (up to 200 KiB) on top.")
-	rec.Note("require", []string{"limit.oversize_rejected", "limit.within_limit", "multi.ok.Read", "multi.ok.io.Copy", "multi.ok.ReadAll", "multi.caller_slice_overwritten_after_construction", "multi.caller_slice_intact_checked", "multi.source_that_copies_another_stream_while_read", "multi.nested_stream_as_last_source", "tee.ok", "tee.writer_failure_checked", "limit.eof_with_n_plus_1th_byte"})
+	rec.Note("require", []string{"limit.oversize_rejected", "limit.within_limit", "multi.ok.Read", "limit.transient.ok", "tee.transient.ok", "multi.transient.ok.Read", "multi.transient.ok.ReadAll", "multi.transient.ok.io.Copy", "multi.ok.io.Copy", "multi.ok.ReadAll", "multi.caller_slice_overwritten_after_construction", "multi.caller_slice_intact_checked", "multi.source_that_copies_another_stream_while_read", "multi.nested_stream_as_last_source", "tee.ok", "tee.writer_failure_checked", "limit.eof_with_n_plus_1th_byte"})
 	rec.Note("exhaustive_lengths", fmt.Sprintf("all compositions for source lengths 0..%d at every N (LimitReadCloser), 0..%d (TeeReadCloser)", mon.Pick(9, 15), mon.Pick(7, 11)))
 	gs := plan()
 	rec.Planned(len(gs))
@@ -602,6 +602,10 @@ func runLimitGroup(idx int, g group) {
 					rec.Count("limit.eof_with_n_plus_1th_byte", 1)
 				}
 				one(sp)
+				for k := 1; k <= 3; k++ {
+					checkLimitTransient(idx, g.N, sp, 1+(int(m)+k)%(g.N+2), k, (int(m)+k+zero)%2 == 0)
+					n++
+				}
 			}
 			if eofWith {
 				continue
@@ -657,6 +661,13 @@ func runMultiGroup(idx int, g group) {
 	checkMulti(idx, mc, modeReadAll, 0)
 	checkMulti(idx, mc, modeCopy, 0)
 	n += 2
+	// the same sources, none failing for good, some reporting a transient error once; resilient consumers
+	for _, buf := range []int{1, 2, 3, 8} {
+		checkMultiTransient(idx, mc, modeRead, buf, rng)
+	}
+	checkMultiTransient(idx, mc, modeReadAll, 0, rng)
+	checkMultiTransient(idx, mc, modeCopy, 0, rng)
+	checkMultiTransient(idx, mc, modeCopy, 1, rng)
 	key := fmt.Sprintf("multi %v %v", mc.specs, mc.closable)
 	rec.CaseN(idx, key, true, int64(n))
 	if rec.WantSample() && idx%7 == 0 {
@@ -681,6 +692,12 @@ func runTeeGroup(idx int, g group) {
 						continue
 					}
 					sp := spec{L: g.L, mask: m, eofWith: eofWith, zero: zero, errAt: errAt}
+					if errAt < 0 {
+						for k := 1; k <= 3; k++ {
+							checkTeeTransient(idx, sp, 1+(int(m)+k)%(g.L+2), k, (int(m)+k+zero)%2 == 0)
+							n++
+						}
+					}
 					for cl := 0; cl < 4; cl++ {
 						for failAt := -1; failAt <= g.L; failAt++ {
 							for buf := 1; buf <= g.L+2; buf += 2 {
